@@ -72,7 +72,7 @@ def default_scripts(rng, antiparallel=False):
 
 def gen_find_world(rng, max_atoms=48, max_copies=6, families=None, cell_families=None, allow_rotated=False,
                    hints_prob=0.4, decoys=True, min_copies=0, atols=None, noise=True, pattern=None, width_mult=1.0,
-                   no_tight=False, noise_div_K=False):
+                   no_tight=False, noise_div_K=False, round_cell=None):
     """A periodic structure with planted copies of a pattern (+ decoys).  Returns a JSON-able spec."""
     family = rng.choice(families or geom.PATTERN_FAMILIES)
     if pattern is None:
@@ -129,6 +129,8 @@ def gen_find_world(rng, max_atoms=48, max_copies=6, families=None, cell_families
     ntight = 0 if no_tight else rng.choice([0, 0, 1, 1, 2, 3])
     tight_axes = rng.sample(range(3), ntight)
     cell = geom.make_cell(rng, cfam, min_width, tight_axes, allow_rotated=allow_rotated)
+    if round_cell is not None:
+        cell = np.ceil(cell * 10 ** round_cell) / 10 ** round_cell      # lengths that survive any file format exactly (never smaller)
 
     atoms_pos, atoms_el = [], []
     planted = []
